@@ -356,7 +356,8 @@ Section Inv.
           destruct a as [|t2 a]; [fin|]. destruct t2; try (fin; fail).
           eapply invg_weaken; [|apply Iit; fin]. intros v0 Hv0. fin. }
         destruct t; try (apply K; fin).
-        fin.
+        * fin.
+        * destruct ts as [|t1 ts1]; [rewrite bind_perr; pe | apply K; fin].
       + (* func_decl *)
         rewrite func_S. eapply invg_bind; [apply Ig; fin|]. intros [[a b]|] Hv; [fin|pe].
   Qed.
@@ -759,7 +760,9 @@ Section Suf.
           apply nf_bind; [apply Is; sl|]. intros [a b] Ea. apply len_stmts in Ea. simpl fst in *.
           destruct a as [|t2 a]; [pk|]. destruct t2; try pk.
           apply Iit. sl. }
-        destruct t; try (apply K; sl). pk.
+        destruct t; try (apply K; sl).
+        * pk.
+        * destruct ts as [|t1 ts1]; [rewrite bind_perr; pk | apply K; sl].
       + (* func_decl *)
         rewrite func_S. apply nf_bind; [apply Ig; sl|]. intros [[a b]|] E; pk.
   Qed.
